@@ -2,10 +2,13 @@ package planner
 
 import (
 	"crypto/sha1"
+	"sort"
+	"strings"
 	"sync"
 	"time"
 
 	"github.com/buildbuildio/pebbles/format"
+	"github.com/vektah/gqlparser/v2/ast"
 )
 
 type hashKey [20]byte
@@ -40,9 +43,34 @@ func (cp *CachedPlanner) WithPlannerExecutor(e Planner) *CachedPlanner {
 func (cp *CachedPlanner) hash(ctx *PlanningContext) hashKey {
 	s := format.NewBufferedFormatter().FormatSelectionSet(ctx.Operation.SelectionSet)
 	// the same selection can be a query and a mutation (or subscription) with different plans
-	s = string(ctx.Operation.Operation) + " " + s
+	// the plan also carries the operation name (it is sent downstream with the root steps)
+	s = string(ctx.Operation.Operation) + " " + ctx.Operation.Name + " " + s
+	// fragments are printed by name and body only: two documents may use the same
+	// fragment name and body with a different type condition
+	var conds []string
+	fragmentTypeConditions(ctx.Operation.SelectionSet, map[string]bool{}, &conds)
+	sort.Strings(conds)
+	s += strings.Join(conds, ",")
 	sha1 := sha1.Sum([]byte(s))
 	return sha1
+}
+
+func fragmentTypeConditions(ss ast.SelectionSet, seen map[string]bool, out *[]string) {
+	for _, sel := range ss {
+		switch sel := sel.(type) {
+		case *ast.Field:
+			fragmentTypeConditions(sel.SelectionSet, seen, out)
+		case *ast.InlineFragment:
+			fragmentTypeConditions(sel.SelectionSet, seen, out)
+		case *ast.FragmentSpread:
+			if sel.Definition == nil || seen[sel.Name] {
+				continue
+			}
+			seen[sel.Name] = true
+			*out = append(*out, sel.Name+" on "+sel.Definition.TypeCondition)
+			fragmentTypeConditions(sel.Definition.SelectionSet, seen, out)
+		}
+	}
 }
 
 func (cp *CachedPlanner) clean() {
